@@ -12,7 +12,7 @@ import "fmt"
 // byte image of the buffer and compares every leaf word with the reference.
 
 type LType struct {
-	K       byte // 'u' u32, 'v' vector of u32, 'm' matrix of f32, 'a' fixed array, 's' struct
+	K       byte // 'u' u32, 'v' vector of u32, 'h' f16, 'w' vector of f16, 'm' matrix of f32, 'a' fixed array, 's' struct
 	N       int  // vector width / array length / matrix columns
 	R       int  // matrix rows
 	Elem    *LType
@@ -38,6 +38,13 @@ func (t *LType) AlignOf() int {
 			return 8
 		}
 		return 16
+	case 'h':
+		return 2
+	case 'w':
+		if t.N == 2 {
+			return 4
+		}
+		return 8
 	case 'm':
 		return V(t.R).AlignOf()
 	case 'a':
@@ -60,6 +67,10 @@ func (t *LType) SizeOf() int {
 		return 4
 	case 'v':
 		return 4 * t.N
+	case 'h':
+		return 2
+	case 'w':
+		return 2 * t.N
 	case 'm':
 		return t.N * RoundUp(V(t.R).AlignOf(), V(t.R).SizeOf())
 	case 'a':
@@ -94,6 +105,10 @@ func (t *LType) WGSL() string {
 		return "u32"
 	case 'v':
 		return fmt.Sprintf("vec%d<u32>", t.N)
+	case 'h':
+		return "f16"
+	case 'w':
+		return fmt.Sprintf("vec%d<f16>", t.N)
 	case 'm':
 		return fmt.Sprintf("mat%dx%d<f32>", t.N, t.R)
 	case 'a':
@@ -174,6 +189,8 @@ func (l LLeaf) read() string {
 
 func U() *LType                  { return &LType{K: 'u'} }
 func V(n int) *LType             { return &LType{K: 'v', N: n} }
+func H() *LType                  { return &LType{K: 'h'} }
+func HV(n int) *LType            { return &LType{K: 'w', N: n} }
 func Mat(c, r int) *LType        { return &LType{K: 'm', N: c, R: r} }
 func Arr(e *LType, n int) *LType { return &LType{K: 'a', Elem: e, N: n} }
 func St(name string, ms ...LMember) *LType {
@@ -327,4 +344,66 @@ func LayoutUniformProgram(root *LType) (src string, leaves []LLeaf, words int) {
 	}
 	src = decl + fmt.Sprintf("@group(0) @binding(0) var<storage, read_write> s: array<u32, %d>;\n@group(0) @binding(1) var<uniform> u: P;\n@compute @workgroup_size(1) fn main() {\n", len(leaves)) + body + "}\n"
 	return src, leaves, root.SizeOf() / 4
+}
+
+// ---- static layout (member offsets and sizes of every struct of a tree) ----
+
+// StructTable lists, for every struct of the tree, the WGSL offset of each member and the
+// struct size.
+type StructInfo struct {
+	Name    string
+	Offsets map[string]int
+	Size    int
+}
+
+func (t *LType) structTable(seen map[string]bool, out *[]StructInfo) {
+	switch t.K {
+	case 'a':
+		t.Elem.structTable(seen, out)
+	case 's':
+		if seen[t.Name] {
+			return
+		}
+		seen[t.Name] = true
+		info := StructInfo{Name: t.Name, Offsets: map[string]int{}, Size: t.SizeOf()}
+		off := 0
+		for _, m := range t.Members {
+			off = RoundUp(m.alignOf(), off)
+			info.Offsets[m.Name] = off
+			off += m.sizeOf()
+			m.T.structTable(seen, out)
+		}
+		*out = append(*out, info)
+	}
+}
+
+func StructTable(root *LType) []StructInfo {
+	var out []StructInfo
+	root.structTable(map[string]bool{}, &out)
+	return out
+}
+
+// LayoutF16FocusTypes: member types with 16-bit scalars (storage address space).
+func LayoutF16FocusTypes() []*LType {
+	innerH := St("InnerH", Mem("v", HV(3)), Mem("w", H()))
+	innerHF := St("InnerHF", Mem("h", HV(3)), Mem("i", St("Inner3", Mem("v", V(3)), Mem("w", U()))))
+	return []*LType{
+		H(), HV(2), HV(3), HV(4), Arr(H(), 3), Arr(HV(3), 2), Arr(HV(2), 3),
+		innerH, Arr(innerH, 2), innerHF,
+		St("InnerHA", Mem("h", HV(3)), LMember{Name: "u", T: U(), Align: 16}),
+		St("InnerHS", LMember{Name: "h", T: HV(3), Size: 12}, Mem("f", U())),
+		St("InnerH2", Mem("a", H()), Mem("b", HV(2)), Mem("c", H()), Mem("d", U())),
+	}
+}
+
+// LayoutDeclProgram declares the tree in a storage buffer and touches one u32 member; used by
+// the static layout check (no data flow through 16-bit members).
+func LayoutDeclProgram(root *LType, f16 bool) string {
+	decl := ""
+	root.decls(map[string]bool{}, &decl)
+	src := ""
+	if f16 {
+		src = "enable f16;\n"
+	}
+	return src + decl + "@group(0) @binding(0) var<storage, read_write> s: P;\n@compute @workgroup_size(1) fn main() {\n  s.a = s.c + 1u;\n}\n"
 }
